@@ -146,6 +146,12 @@ def run(tier, seed):
                 sub = sub.replace("version 1.0\n", 'version 1.0\ninclude "inner/leaf.xbb"\n', 1) + "leaf | %d\n" % modes[0]
                 os.makedirs(os.path.join(scratch, "elsewhere", "inner"), exist_ok=True)
                 open(os.path.join(scratch, "elsewhere", "inner", "leaf.xbb"), "w").write("name leaf\nversion 1.0\n\nXgate(0.75) | %d\n" % modes[0])
+            if i % 5 == 1:
+                # an included program whose arguments are transforms over 3-5 registers: the copies made when it is applied keep
+                # function and register list paired (the observation evaluates func on the registers in the listed order)
+                rs = rng.sample([0, 1, 2, 3, 5, 8, 12, 13], rng.randint(3, 5))
+                e = " + ".join("%d * q%d" % (10 ** k, r) for k, r in enumerate(rs))
+                sub += "Zgate(%s) | %d\nKgate(k=%s - q%d ** 2) | %d\n" % (e, modes[0], e, rs[0], modes[0])
             open(os.path.join(d, "sub.xbb"), "w").write(sub)
             call = list(range(len(modes)))
             rng.shuffle(call)
